@@ -65,8 +65,22 @@ def case(job):
                 exp_plain.append(bytes([len(exp_assets)]))
                 args.append(pt.Int(4000 + len(exp_assets)))
                 exp_assets.append(4000 + len(exp_assets))
+        extra = {pt.TxnField.fee: pt.Int(0)}
+        x_accts, x_apps, x_assets = [], [], []
+        if seed % 2 == 1:
+            # the caller adds foreign references of its own: they must not disturb what the argument indices name
+            if r.random() < 0.7:
+                x_accts = [bytes([0xbb]) * 32]
+                extra[pt.TxnField.accounts] = [pt.Bytes(x_accts[0])]
+            if r.random() < 0.7:
+                x_assets = [888]
+                extra[pt.TxnField.assets] = [pt.Int(888)]
+            if r.random() < 0.7:
+                x_apps = [999]
+                extra[pt.TxnField.applications] = [pt.Int(999)]
+            extra[pt.TxnField.note] = pt.Bytes("n")
         prog = pt.Seq(*stmts, pt.InnerTxnBuilder.Begin(),
-                      pt.InnerTxnBuilder.MethodCall(app_id=pt.Int(5), method_signature=sig, args=args, extra_fields={pt.TxnField.fee: pt.Int(0)}),
+                      pt.InnerTxnBuilder.MethodCall(app_id=pt.Int(5), method_signature=sig, args=args, extra_fields=extra),
                       pt.InnerTxnBuilder.Submit(), pt.Approve())
         teal = pt.compileTeal(prog, pt.Mode.Application, version=version)
         res = avm.run(teal, avm.Ctx())
@@ -105,8 +119,10 @@ def case(job):
                     out["problems"].append(f"{sig}: application arguments differ from ARC-4 (>15 case)")
         elif got_args != [sel] + exp_plain:
             out["problems"].append(f"{sig}: application arguments {[a.hex()[:24] for a in got_args]} != expected {[a.hex()[:24] for a in [sel] + exp_plain]}")
-        if fields.get("Accounts", []) != exp_accts or fields.get("Applications", []) != exp_apps or fields.get("Assets", []) != exp_assets:
-            out["problems"].append(f"{sig}: foreign arrays differ: {fields.get('Accounts')} {fields.get('Applications')} {fields.get('Assets')}")
+        # the reference arguments occupy the positions their index bytes name; the caller's own extra entries follow them
+        if fields.get("Accounts", []) != exp_accts + x_accts or fields.get("Applications", []) != exp_apps + x_apps or fields.get("Assets", []) != exp_assets + x_assets:
+            out["problems"].append(f"{sig}: foreign arrays differ (extra fields {sorted(str(k) for k in extra)}): {fields.get('Accounts')} {fields.get('Applications')} {fields.get('Assets')}, "
+                                   f"arguments name {exp_accts} {exp_apps} {exp_assets}")
     except Exception as e:
         if isinstance(e, avm.Unsupported):
             out["skipped"] = str(e)
